@@ -12,7 +12,10 @@ from .real_restore_logger import RealRestoreLogger
 from .restore_cmd import RestoreCmd
 from .trash_directories import TrashDirectoriesImpl
 from .trashed_files import TrashedFiles
+from ..empty.top_trash_dir_rules_file_system_reader import \
+    RealTopTrashDirRulesReader
 from ..fstab.volumes import RealVolumes
+from ..trash_dirs_scanner import TopTrashDirRules
 from ..lib.logger import my_logger
 from ..lib.my_input import RealInput
 
@@ -20,9 +23,11 @@ from ..lib.my_input import RealInput
 def main():
     info_files = InfoFiles(RealListingFileSystem())
     volumes = RealVolumes()
-    trash_directories = TrashDirectoriesImpl(volumes,
-                                             os.getuid(),
-                                             os.environ)
+    trash_directories = TrashDirectoriesImpl(
+        volumes,
+        os.getuid(),
+        os.environ,
+        TopTrashDirRules(RealTopTrashDirRulesReader()))
     searcher = InfoDirSearcher(trash_directories, info_files)
     trashed_files = TrashedFiles(RealRestoreLogger(my_logger),
                                  RealFileReader(),
